@@ -7,4 +7,5 @@ impl<H: Host> ZXController<H> {
     pub fn verif_paging_enabled(&self) -> bool { self.paging_enabled }
     pub fn verif_screen_bank(&self) -> u8 { self.screen_bank }
     pub fn verif_events_bits(&self) -> u8 { self.events.bits() }
+    pub fn verif_frame_pos(&self) -> f64 { self.frame_pos() }
 }
